@@ -69,6 +69,10 @@ func c20Rules(tier string) []Rule {
 		// an unhealthy what-if does set the condition False unless it already is
 		POST{ID: "C20.PROV2d", Fn: livU, FromLit: `-^\(\*opkg/status\.Condition\)\.IsFalse\(\(opkg/status\.ConditionSet\)\.Get\(\(\*apis/v1\.NodePool\)\.StatusConditions\(.*\), "NodeRegistrationHealthy"\)\)$`,
 			Must: []string{`^call \(opkg/status\.ConditionSet\)\.SetFalse\(.*"NodeRegistrationHealthy"`}},
+		// a reset of the condition (NodeClass / NodePool generation change) empties the window in the same step: the
+		// tracker never keeps outcomes from before a reset
+		POST{ID: "C20.POST3", Fn: "(*controllers/nodepool/registrationhealth.Controller).Reconcile", From: `^call \(opkg/status\.ConditionSet\)\.SetUnknown\(.*, "NodeRegistrationHealthy"\)$`,
+			Must: []string{`^call \(\*state/nodepoolhealth\.State\)\.SetStatus\(\$0\.npState, \$2\.ObjectMeta\.UID, 0\)$`}, Note: "SetUnknown is always followed by SetStatus(uid, StatusUnknown)"},
 		WMC{ID: "C20.WMC2", Sink: `^call \(opkg/status\.ConditionSet\)\.SetFalse\(.*, "NodeRegistrationHealthy"`, Allowed: []string{livU, "(*controllers/nodepool/registrationhealth.Controller).Reconcile"}, Required: []string{livU}},
 		WMC{ID: "C20.WMC3", Sink: `^(call|go|defer) \(\*state/nodepoolhealth\.State\)\.Update\(`, Allowed: []string{regU, livU}, Required: []string{regU, livU}},
 		WMC{ID: "C20.WMC4", Sink: `^(call|go|defer) \(\*state/nodepoolhealth\.State\)\.DryRun\(`, Allowed: []string{regU, livU}, Required: []string{regU, livU}},
